@@ -144,6 +144,20 @@ func (t *tcpHandler) Handle() error {
 		}(conn)
 	}
 	if t.pool != nil {
+		// requests already read are queued in the pool: stop the workers only after every
+		// connection has drained, otherwise queued requests are never executed or answered
+		tk := time.NewTicker(time.Millisecond * 500)
+		for range tk.C {
+			drained := true
+			t.conns.Range(func(_, _ interface{}) bool {
+				drained = false
+				return false
+			})
+			if drained {
+				break
+			}
+		}
+		tk.Stop()
 		t.pool.Release()
 	}
 	return nil
